@@ -115,8 +115,8 @@ claim("C11", "DESIGN.md 5/C11", "Lean theorems on line counting + differential c
 claim("C15", "DESIGN.md 5/C15 and 9", "Lean theorems: serialize_parse_roundtrip (whole programs) + quote_roundtrip (every string) + character-exact correspondence of to_string() + load-back oracle",
       "Theorems: MPilot.C15P.serialize_parse_roundtrip - the text the serializer model writes for a program (commands in order, one argument per line, strings quoted, integers in decimal, references/booleans/None "
       "as words, lists to any depth) is parsed back as exactly that program: same commands, order, argument names and values, version 3, every node on the line the serializer put it on; built from valSeg/rowSeg/cmdSeg/progSeg "
-      "(the text lexes to the expected tokens: integers via spells_toString_int, strings via MPilot.C15.quote_roundtrip for every string) and C10.program_renders. Metadata tuples are covered (values written as quoted text). Outside the theorem: decimals as argument values (positional printing) - "
-      "decided by the correspondence and the round-trip oracle. Model/Serialize is compared character by character with Program.to_string() on every run (programs built from source and through add_command), "
+      "(the text lexes to the expected tokens: integers via spells_toString_int, strings via MPilot.C15.quote_roundtrip for every string) and C10.program_renders. Metadata tuples are covered (values written as quoted text), and so are decimals (spells_positional: every terminating decimal of at most 400 places is printed in positional notation and read back as exactly "
+      "that rational; that Python's repr(float) denotes the double it came from is trusted). Model/Serialize is compared character by character with Program.to_string() on every run (programs built from source and through add_command), "
       "and every serialised program is loaded back and compared argument by argument and by results on the implementation.",
       XB)
 claim("C16", "DESIGN.md 5/C16", "Lean theorems over tables regenerated from the source (decide) + conversion-rule theorems + whole-pipeline correspondence + hand-mapped equivalence oracle",
